@@ -20,7 +20,9 @@ EXTENDS Naturals, Integers, Sequences, FiniteSets, TLC
 \* C13 wait bound = WaitMul * (peak population) + WaitAdd collection polls.  Trace validation uses a
 \* generous linear bound (3, 16) so that any linear discipline passes; model checking of the Impl
 \* reading uses the tight bound that FIFO + group rotation actually achieve.
-CONSTANTS WaitMul, WaitAdd
+\* StaleCap: saturation of the counter of stale wake-ups (trace validation: 100000; model checking: 0 - the known
+\* corner it identifies needs 61 of them and the real budget of 61, far beyond the models).
+CONSTANTS WaitMul, WaitAdd, StaleCap
 
 \* ------------------------------------------------------------------ kinds
 BoundedKinds   == {"fub", "fob", "mb"}
@@ -63,6 +65,9 @@ Fresh == [
   refused|-> FALSE,    \* a push was refused (or panicked) earlier in this run: it must not have disturbed anything (C15)
   poison |-> FALSE,    \* a child's destructor panicked: the properties do not speak about what follows, except exactly-once dropping
   budgeted |-> FALSE,  \* the per-poll budget ran out during the latest poll (hook event)
+  stale  |-> 0,        \* wake-ups of children that had finished already (vacant slots) and may still sit in a ready queue
+  stale0 |-> 0,        \* ... at the beginning of the latest poll
+  bmax   |-> 0,        \* the budget reported by the latest budget stop
   unw    |-> FALSE,    \* a panic raised by a child's destructor is unwinding through the crate
   qn     |-> 0,        \* C14: consecutive noisy Pending polls in a quiet phase
   act    |-> FALSE,    \* C14: a child waker was invoked / a child finished / upstream moved during this poll
@@ -175,7 +180,7 @@ StepObs(s, e) ==
 
 \* --------------------------------------------------------------- poll frame
 StepPoll(s, e) ==
-  [s EXCEPT !.inpoll = TRUE, !.pw = e.w, !.woken = FALSE, !.work = 0, !.upPend = FALSE, !.act = FALSE, !.budgeted = FALSE,
+  [s EXCEPT !.inpoll = TRUE, !.pw = e.w, !.woken = FALSE, !.work = 0, !.upPend = FALSE, !.act = FALSE, !.budgeted = FALSE, !.stale0 = s.stale,
             !.ch = [c \in DOMAIN @ |-> IF @[c].st = "held" /\ @[c].np = 0
                                        THEN [@[c] EXCEPT !.ob = TRUE] ELSE @[c]]]
 
@@ -262,8 +267,11 @@ Notify(s, k) ==
 \* On one thread a waker call is atomic with respect to the polls, so it takes effect where it begins.  With wakers
 \* invoked on other threads the call overlaps polls; it takes effect at its flag swap (hook event "wswap", logged
 \* under the slot lock), and only if the slot was not queued already.
+IsHit(s, k) == LET c == IF k \in DOMAIN s.occ THEN s.occ[k] ELSE 0
+               IN c \in DOMAIN s.ch /\ s.ch[c].st = "held" /\ s.ch[c].key = k /\ ~s.dead
 StepWakeB(s, e) ==
-  LET s1 == [s EXCEPT !.inwake = @ + 1, !.qn = 0, !.act = TRUE]
+  LET s1 == [s EXCEPT !.inwake = @ + 1, !.qn = 0, !.act = TRUE,
+                      !.stale = IF ~s.mt /\ e.key # 0 /\ ~IsHit(s, e.key) /\ @ < StaleCap THEN @ + 1 ELSE @]
   IN IF s.mt THEN s1 ELSE Notify(s1, e.key)
 StepPopclr(s, e) ==
   LET k == e.b * 100000 + e.i
@@ -332,9 +340,11 @@ StepRet(s, e) ==
                         d == IF c.act THEN [c EXCEPT !.qn = 0]
                              ELSE IF c.woken
                              THEN Chk([c EXCEPT !.qn = @ + 1], c.qn + 1 < NHeld(c) + 2, "C14",
-                                      "task woken again and again although no child waker was invoked")
+                                      IF c.budgeted /\ c.bmax = 61 /\ c.stale0 >= 61
+                                      THEN "task woken again and again although no child waker was invoked in this phase: stale wake-ups of finished children, fired earlier, are charged to the poll budget of 61"
+                                      ELSE "task woken again and again although no child waker was invoked")
                              ELSE [c EXCEPT !.qn = 0]
-                    IN d
+                    IN [d EXCEPT !.stale = IF d.budgeted THEN Max(@ - 61, 0) ELSE 0]
                [] OTHER -> s1
       s3  == IF e.res \in {"pending", "none"} /\ HeadStuck(s1)
              THEN V(s2, "C04", "the output next in queue order is ready but the poll did not yield it") ELSE s2
@@ -411,7 +421,7 @@ Step(s, e) ==
     [] e.e = "cin"    -> StepCin(s, e)
     [] e.e = "cout"   -> StepCout(s, e)
     [] e.e = "cdrop"  -> StepCdrop(s, e)
-    [] e.e = "budget" -> [s EXCEPT !.budgeted = TRUE]
+    [] e.e = "budget" -> [s EXCEPT !.budgeted = TRUE, !.bmax = e.max]
     [] e.e = "dpanic" -> [s EXCEPT !.unw = TRUE, !.poison = TRUE]
     [] e.e = "odrop"  -> StepOdrop(s, e)
     [] e.e = "wake_b" -> StepWakeB(s, e)
